@@ -400,6 +400,13 @@ size_t varintAdaptiveEncodeWith(uint8_t *dst, const uint64_t *values,
             }
         }
 
+        if (varintBitmapCardinality(vb) != count) {
+            /* A member could not be stored (allocation failure, duplicate or
+             * out-of-range value): the set would not decode to the input */
+            varintBitmapFree(vb);
+            return 0;
+        }
+
         encodedSize = varintBitmapEncode(vb, dst + offset);
         varintBitmapFree(vb);
         break;
@@ -415,6 +422,11 @@ size_t varintAdaptiveEncodeWith(uint8_t *dst, const uint64_t *values,
         encodedSize = offset - 1; /* Subtract initial header byte */
         break;
     }
+    }
+
+    if (encodedSize == 0 && count > 0) {
+        /* The selected encoder failed (e.g. out of memory) */
+        return 0;
     }
 
     /* Fill metadata if requested */
